@@ -160,3 +160,32 @@ package mod
 //@   loop 3 invariant forall j int :: imp(0 <= j && j <= rangeindex, (used[j] != nil) == usableKey(input, c.common.KeyCol, j) && imp(used[j] != nil, used[j].ArgvIndex == cntK(input, j + 1) && !used[j].Omit))
 //@   loop 3 invariant forall j int :: imp(rangeindex < j && j < len(used), used[j] == nil)
 //@   loop 3 invariant imp(indexOut.AlreadyOrdered, len(input.OrderBy) <= 1 && imp(len(input.OrderBy) == 1, input.OrderBy[0].ColumnIndex == c.common.KeyCol))
+
+// ---------------------------------------------------------------------------
+// s3db_conn (property C15): UPDATE sets exactly the attributes whose argument
+// is not flagged no-change (NULL or '' clears), makes the request context
+// carry them, and turns an explicitly set write_time into the connection's
+// own (it is no longer the transaction's automatic one). A rejected UPDATE
+// leaves the connection consistent.
+//@ func (*ConnModule).Update
+//@   requires c != nil && connInv(c.sc)
+//@   modifies c.sc.deadline, c.sc.writeTime, c.sc.ctx, c.sc.ctxCancel, c.sc.txFixedWriteTime
+//@   ensures arity: imp(len(values) != 2, result != nil && c.sc.deadline == old(c.sc.deadline) && c.sc.writeTime == old(c.sc.writeTime) && c.sc.ctx == old(c.sc.ctx))
+//@   ensures inv: imp(result == nil, connInv(c.sc) && !c.sc.txFixedWriteTime)
+//@   ensures rejected-consistent: imp(result != nil, connInv(c.sc))
+//@   ensures deadline-kept: imp(result == nil && valNoChange(values[0]), c.sc.deadline == old(c.sc.deadline))
+//@   ensures deadline-cleared: imp(result == nil && !valNoChange(values[0]) && (valIsNil(values[0]) || valText(values[0]) == ""), zeroT(c.sc.deadline))
+//@   ensures deadline-set: imp(result == nil && !valNoChange(values[0]) && !valIsNil(values[0]) && valText(values[0]) != "", c.sc.deadline == parsedTime(s3db.SQLiteTimeFormat, valText(values[0])))
+//@   ensures write-time-kept: imp(result == nil && valNoChange(values[1]), c.sc.writeTime == old(c.sc.writeTime))
+//@   ensures write-time-cleared: imp(result == nil && !valNoChange(values[1]) && (valIsNil(values[1]) || valText(values[1]) == ""), zeroT(c.sc.writeTime))
+//@   ensures write-time-set: imp(result == nil && !valNoChange(values[1]) && !valIsNil(values[1]) && valText(values[1]) != "", c.sc.writeTime == parsedTime(s3db.SQLiteTimeFormat, valText(values[1])))
+
+// reading the attributes back: NULL when unset, else the formatted time
+//@ func (*ConnCursor).Column
+//@   requires vc != nil && vc.vm != nil && vc.vm.sc != nil && context != nil && context.Context != nil
+//@   modifies gf(context.Context.ptr, "resKind"), gfs(context.Context.ptr, "resText")
+//@   ensures deadline-null: imp(i == 0 && zeroT(vc.vm.sc.deadline), gf(context.Context.ptr, "resKind") == 5)
+//@   ensures write-time-null: imp(i == 1 && zeroT(vc.vm.sc.writeTime), gf(context.Context.ptr, "resKind") == 5)
+//@   ensures deadline-text: imp(i == 0 && !zeroT(vc.vm.sc.deadline), gfs(context.Context.ptr, "resText") == time_format(vc.vm.sc.deadline, s3db.SQLiteTimeFormat))
+//@   ensures write-time-text: imp(i == 1 && !zeroT(vc.vm.sc.writeTime), gfs(context.Context.ptr, "resText") == time_format(vc.vm.sc.writeTime, s3db.SQLiteTimeFormat))
+//@ ufunc time_format(t, l) string
